@@ -394,3 +394,98 @@ Lemma client_literals :
   K_arg_cond = "where=" /\ K_arg_project = "project=" /\ K_arg_sort = "sort=" /\
   K_arg_max_results = "max_results=" /\ K_query_mark = "?" /\ K_arg_sep = "&".
 Proof. repeat split; reflexivity. Qed.
+
+(* ------------------------------------------------------------------ lazy consumption *)
+Lemma items_k_spec tz items : forall k,
+  (k <= List.length (fst (yield_items tz items)))%nat /\
+    items_k tz items k = (firstn k (fst (yield_items tz items)), None, 0%nat)
+  \/
+  (List.length (fst (yield_items tz items)) < k)%nat /\
+    items_k tz items k = (fst (yield_items tz items), snd (yield_items tz items),
+                          (k - List.length (fst (yield_items tz items)))%nat).
+Proof.
+  induction items as [|d r IH]; intros [|k]; simpl.
+  - left. auto.
+  - right. split; [lia|reflexivity].
+  - left. split; [lia|reflexivity].
+  - destruct (parse_dates tz d) as [d'|e]; simpl.
+    + destruct (yield_items tz r) as [ys e0] eqn:Ey. simpl in *.
+      destruct (IH k) as [[Hle Hk]|[Hlt Hk]]; rewrite Hk.
+      * left. split; [lia|reflexivity].
+      * right. split; [lia|reflexivity].
+    + right. split; [lia|reflexivity].
+Qed.
+
+Lemma consume_k_spec tz base : forall rest pg k, (1 <= k)%nat ->
+  t_yielded (consume_k tz base pg rest k) = firstn k (t_yielded (consume tz base pg rest)) /\
+  (exists m, t_requests (consume_k tz base pg rest k) = firstn m (t_requests (consume tz base pg rest))) /\
+  ((List.length (t_yielded (consume tz base pg rest)) < k)%nat ->
+   consume_k tz base pg rest k = consume tz base pg rest).
+Proof.
+  induction rest as [|pg' rest IH]; intros pg k Hk; cbn [consume consume_k];
+    destruct (items_k_spec tz (p_items pg) k) as [[Hle Hi]|[Hlt Hi]]; rewrite Hi;
+    destruct (yield_items tz (p_items pg)) as [ys e] eqn:Ey; cbn [fst snd] in *.
+  - (* suspended inside the only page *)
+    assert (Hy : forall tr, t_yielded tr = ys -> firstn k ys = firstn k (t_yielded tr)) by (intros tr ->; reflexivity).
+    destruct e as [err|]; [|destruct (p_next pg)]; cbn [t_yielded t_requests t_outcome];
+      (split; [reflexivity|split; [exists 0%nat; reflexivity|intro; lia]]).
+  - destruct e as [err|].
+    + cbn [t_yielded t_requests]. split; [now rewrite firstn_all2 by lia|]. split; [exists 0%nat; reflexivity|reflexivity].
+    + destruct (k - List.length ys)%nat as [|j] eqn:Ej; [lia|].
+      destruct (p_next pg); cbn [t_yielded t_requests];
+        (split; [now rewrite firstn_all2 by lia|split; [eexists; symmetry; apply firstn_all|reflexivity]]).
+  - destruct e as [err|]; [|destruct (p_next pg)]; cbn [t_yielded t_requests t_outcome].
+    + split; [reflexivity|]. split; [exists 0%nat; reflexivity|intro; lia].
+    + split; [now rewrite firstn_app_le by assumption|]. split; [exists 0%nat; reflexivity|].
+      rewrite app_length. intro; lia.
+    + split; [reflexivity|]. split; [exists 0%nat; reflexivity|intro; lia].
+  - destruct e as [err|].
+    + cbn [t_yielded t_requests]. split; [now rewrite firstn_all2 by lia|]. split; [exists 0%nat; reflexivity|reflexivity].
+    + destruct (k - List.length ys)%nat as [|j] eqn:Ej; [lia|].
+      destruct (p_next pg) as [href|].
+      * destruct (IH pg' (S j) ltac:(lia)) as (Hy & (m & Hm) & Hall).
+        cbn [t_yielded t_requests t_outcome]. split; [|split].
+        -- rewrite Hy. rewrite firstn_app. rewrite (@firstn_all2 _ k ys) by lia. f_equal. f_equal. lia.
+        -- exists (S m). simpl. now rewrite Hm.
+        -- rewrite app_length. intro Hlen. rewrite Hall by lia. reflexivity.
+      * cbn [t_yielded t_requests]. split; [now rewrite firstn_all2 by lia|].
+        split; [exists 0%nat; reflexivity|reflexivity].
+Qed.
+
+(* consuming only k sessions yields the first k of what full consumption yields, makes a prefix of the
+   requests, and is the full run as soon as k exceeds the number of sessions *)
+Lemma take_spec tz base q responses k :
+  t_yielded (get_sessions_take tz base q responses k) = firstn k (t_yielded (get_sessions tz base q responses)) /\
+  (exists m, t_requests (get_sessions_take tz base q responses k)
+             = firstn m (t_requests (get_sessions tz base q responses))) /\
+  ((List.length (t_yielded (get_sessions tz base q responses)) < k)%nat ->
+   get_sessions_take tz base q responses k = get_sessions tz base q responses).
+Proof.
+  unfold get_sessions_take, get_sessions. destruct k as [|k].
+  - simpl. split; [reflexivity|]. split; [exists 0%nat; reflexivity|intro; lia].
+  - destruct (valid_site (q_site q)).
+    + destruct responses as [|pg rest].
+      * simpl. split; [reflexivity|]. split; [exists 1%nat; reflexivity|reflexivity].
+      * destruct (consume_k_spec tz base rest pg (S k) ltac:(lia)) as (Hy & (m & Hm) & Hall).
+        cbn [t_yielded t_requests t_outcome]. split; [exact Hy|]. split.
+        -- exists (S m). simpl. now rewrite Hm.
+        -- intro Hlen. now rewrite Hall.
+    + simpl. split; [reflexivity|]. split; [exists 0%nat; reflexivity|reflexivity].
+Qed.
+
+Lemma take_zero tz base q responses :
+  get_sessions_take tz base q responses 0 = {| t_requests := []; t_yielded := []; t_outcome := Suspended |}.
+Proof. reflexivity. Qed.
+
+(* ------------------------------------------------------------------ count_sessions *)
+Lemma count_sessions_spec base site cond total :
+  (valid_site site = false -> count_sessions base site cond total = ([], Err "ValueError")) /\
+  (valid_site site = true ->
+     count_sessions base site cond total =
+     ([base ++ "sessions/" ++ site ++ "?" ++ match cond with Some c => "where=" ++ c ++ "&limit=1" | None => "limit=1" end],
+      match total with Some h => Ok h | None => Err "KeyError" end)).
+Proof.
+  unfold count_sessions. split; intros ->; [reflexivity|].
+  unfold count_url, opt_arg, K_endpoint, K_query_mark, K_arg_sep, K_arg_cond.
+  destruct cond; cbn [app join]; repeat progress (rewrite ?sapp_assoc; cbn [append]); reflexivity.
+Qed.
